@@ -58,6 +58,13 @@ func (h *H) emit(op, impl, oracle string, nontrivial bool) {
 
 func (h *H) stat(key string) { h.stats[key]++ }
 
+// begin marks the start of a case that feeds peer-controlled input to code running in goroutines this
+// harness cannot guard with recover: if the process dies, the last BEGIN without a CASE names the input.
+func (h *H) begin(op string) {
+	fmt.Fprintf(h.out, "BEGIN\t%s\n", op)
+	h.out.Flush()
+}
+
 func hx(b []byte) string {
 	if len(b) == 0 {
 		return "-"
@@ -88,7 +95,12 @@ func main() {
 	seed := flag.Int64("seed", 1, "PRNG seed")
 	tier := flag.String("tier", "quick", "quick|thorough")
 	replay := flag.String("replay", "", "file with op lines to re-run instead of generating")
+	serve := flag.String("serve", "", "internal: run a daemon subprocess for the daemonproc suite on the given directory")
 	flag.Parse()
+	if *serve != "" {
+		serveMain(*serve)
+		return
+	}
 	if flag.NArg() < 1 {
 		names := []string{}
 		for k := range suites {
